@@ -142,7 +142,7 @@ def run(ctx):
     rng = ctx.rng
     if nonumpy:
         # pure-Python routines without NumPy: results must equal the reference / be container independent
-        for _ in range(600 if ctx.quick else 6000):
+        for _ in range(ctx.scale(6000, 60000)):
             r, c = rng.randint(1, 9), rng.randint(1, 9)
             s1, s2 = gen.series(rng, r), gen.series(rng, c)
             kw = gen.rand_settings(rng, r, c)
@@ -191,7 +191,7 @@ def run(ctx):
     from dtaidistance.clustering import hierarchical as H
     install_purity(ctx)
     ctx.counters.setdefault("numpy_absent_checks", 1)     # decided by the no-NumPy workers
-    N = 120 if ctx.quick else 2500
+    N = ctx.scale(500, 6000)
     for it in range(N):
         r, c = rng.randint(1, 9), rng.randint(1, 9)
         s1, s2 = gen.series(rng, r), gen.series(rng, c)
